@@ -1065,6 +1065,8 @@ class Models:
                 ops.append(Agg('()', [int(i), Enum('BreakOpportunity', 0 if k == 'M' else 1, [])]))
             return ListIt(ops)
         reg('linebreaks|unicode_linebreak::linebreaks', linebreaks)
+        import models2
+        models2.install(self)
 
     # ------------------------------------------------------------------
     def into_iter(self, I, x):
